@@ -14,6 +14,7 @@
   Deliberately outside `TopoEquivD`: topology->userdata, which hwloc__topology_dup does not copy (`C12_topo_userdata_not_copied`).
 -/
 import Hw.Topo.DupLemmas
+import Hw.Gen.DupAlloc
 namespace Hw.Props.C12
 open Hw.Topo Hw.Topo.Hist Hw.Topo.Dup
 
@@ -89,6 +90,59 @@ theorem C12_provenance_disjoint (allocd old : List Block) (ptrs : List Ptr) (hok
 /-- ... and extents in different allocator blocks do not alias each other -/
 theorem C12_provenance_distinct_blocks (a b : Block) (p q : Ptr) (hd : a.Disjoint b) (hp : a.contains p = true)
     (hq : b.contains q = true) : ¬ Overlap p.addr p.size q.addr q.size := prov_distinct_blocks hd hp hq
+
+
+/-! ### the allocation discipline of the dup functions, over the table regenerated from the C source on every run
+(tools/gen_dup.py -> Hw.Gen.DupAlloc; tie T).  These say nothing about values at run time: they state that, AS WRITTEN, the dup
+functions never store a pointer obtained from the original into the copy (except `userdata`), never write into the original,
+repair every pointer member that a structure-wide memcpy copied shallowly, and initialise every pointer member of a structure
+they obtain from a plain malloc.  A new shallow pointer copy in a dup function makes one of them fail to type-check. -/
+section Gen
+open Hw.Gen.DupAlloc
+
+def fromCopy (s : Src) : Bool := s == .tma || s == .null || s == .newRef
+def ptrFieldsOf (st : String) : List String := ((ptrFields.find? (fun p => p.1 == st)).map (·.2)).getD []
+/-- pointer members of `struct hwloc_obj` that hwloc__duplicate_object leaves to hwloc_alloc_setup_object (`attr`, zeroed rest)
+and hwloc_insert_object_by_parent (the tree links) -/
+def objSetElsewhere : List String := ["attr", "parent", "next_sibling", "first_child", "memory_first_child", "io_first_child", "misc_first_child"]
+
+/-- every DATA POINTER stored by a dup function comes from the tma allocator, is NULL, or points into the copy;
+the only exception is `obj->userdata`, copied verbatim by contract -/
+theorem C12_gen_no_shallow_pointer_copy :
+    assigns.all (fun a => !a.isPtr || fromCopy a.src || (a.struct == "hwloc_obj" && a.field == "userdata")) = true := by decide
+
+/-- the dup functions only ever assign to members of the copy -/
+theorem C12_gen_writes_only_into_copy : assigns.all (fun a => a.lhsNew) = true := by decide
+
+/-- every pointer member copied shallowly by a structure-wide memcpy is re-assigned in the same function from the allocator /
+NULL, or deep-copied by hwloc__tma_dup_infos -/
+theorem C12_gen_memcpy_fixed_up :
+    memcpys.all (fun m => m.2.2.2.all (fun p =>
+      assigns.any (fun a => a.fn == m.1 && a.struct == m.2.2.1 && a.field == p && a.isPtr && (a.src == .tma || a.src == .null))
+      || infosDupCalls.contains (m.1, m.2.2.1, p))) = true := by decide
+
+/-- every pointer member of a structure obtained from a plain hwloc_tma_malloc is assigned in that function -/
+theorem C12_gen_fresh_struct_initialised :
+    freshStructs.all (fun f => (ptrFieldsOf f.2).all (fun p => assigns.any (fun a => a.fn == f.1 && a.struct == f.2 && a.field == p))) = true := by decide
+
+/-- no pointer member of `struct hwloc_obj` is forgotten: each is assigned by hwloc__duplicate_object, deep-copied by
+hwloc__tma_dup_infos, or belongs to the fixed list set by hwloc_alloc_setup_object / hwloc_insert_object_by_parent -/
+theorem C12_gen_obj_pointer_members_covered :
+    (ptrFieldsOf "hwloc_obj").all (fun p =>
+      assigns.any (fun a => a.fn == "hwloc__duplicate_object" && a.struct == "hwloc_obj" && a.field == p)
+      || infosDupCalls.contains ("hwloc__duplicate_object", "hwloc_obj", p) || objSetElsewhere.contains p) = true := by decide
+
+/-- the three infos members (object, topology, cpukind) are deep-copied, and the deep copy itself takes its strings from the allocator -/
+theorem C12_gen_infos_deep_copied :
+    (infosDupCalls.contains ("hwloc__duplicate_object", "hwloc_obj", "infos.array") &&
+     infosDupCalls.contains ("hwloc__topology_dup", "hwloc_topology", "infos.array") &&
+     infosDupCalls.contains ("hwloc_internal_cpukinds_dup", "hwloc_internal_cpukind_s", "infos.array") &&
+     (ptrFieldsOf "hwloc_info_s").all (fun p => assigns.any (fun a => a.fn == "hwloc__tma_dup_infos" && a.struct == "hwloc_info_s" && a.field == p && a.src == .tma))) = true := by decide
+
+/-- non-vacuity: the tables are populated and the exception really is used exactly once -/
+example : (assigns.filter (fun a => a.isPtr)).length ≥ 40 ∧ (memcpys.filter (fun m => !m.2.2.2.isEmpty)).length ≥ 5 ∧
+    (assigns.filter (fun a => a.isPtr && a.src == .oldCopy)).length = 1 := by decide
+end Gen
 
 /-! ### non-vacuity -/
 
